@@ -1,6 +1,6 @@
 """Source of MANIFEST.json (run ./tools_manifest.py after editing)."""
 
-FIX_COMMITS = ['aa8a796', 'e19c32a', '9330350', '8599158', '33efd15', '1cc24ab', '668079e', 'f34decb', 'f0c9eb4', 'f63685a', 'f41aea7', '4c9fae6', '89fa7aa', '44add83', '3e6a5c9', '24d79b7', '9b58b2c', '783304e', 'f6c2ece', '8bd765a', 'debc858', '096bb2b', '9bcdd72', 'af4b9f6', 'cef733f', 'a117c80', 'b164430', '2fdc9c3', '1f4ac19', '0565888', '7625e32', '6c98e8e', '87aecdb', 'b9b504c', 'ea08a4e']
+FIX_COMMITS = ['aa8a796', 'e19c32a', '9330350', '8599158', '33efd15', '1cc24ab', '668079e', 'f34decb', 'f0c9eb4', 'f63685a', 'f41aea7', '4c9fae6', '89fa7aa', '44add83', '3e6a5c9', '24d79b7', '9b58b2c', '783304e', 'f6c2ece', '8bd765a', 'debc858', '096bb2b', '9bcdd72', 'af4b9f6', 'cef733f', 'a117c80', 'b164430', '2fdc9c3', '1f4ac19', '0565888', '7625e32', '6c98e8e', '87aecdb', 'b9b504c', 'ea08a4e', '211c6bc']
 
 _ALL = ['C%02d' % i for i in range(1, 21)]
 
@@ -188,7 +188,9 @@ CHECKS.append(dict(
          'cross-nested logit with disjoint nests and unit allocations vs nested logit; models with explicit scale 1 (number, '
          'Numeric, fixed or free Beta) vs unscaled; legacy tuple syntax vs nest objects; for the nested logit the published '
          'generating function is evaluated with the utilities as free parameters and ln(dG/dV_i) - V_i from the engine gradient is '
-         'compared with the published ln G_i, with alone alternatives and availabilities; G itself is compared with its definition.',
+         'compared with the published ln G_i, with alone alternatives and availabilities; G itself is compared with its definition. '
+         'Nests are named distinctly, identically or not at all; cross-nested allocation parameters may be free parameters starting '
+         'at 0 and evaluated elsewhere through a value dictionary.',
     note='Both sides of each reduction go through the same compiled engine (1e-10 relative); the generating-function check trusts '
          'the engine gradient (property C02) and the textbook definition of G. One defect found was repaired (fix: commit).',
     technique='property-based testing (Hypothesis): differential between model functions, derivative-vs-published-term relation',
@@ -215,7 +217,10 @@ CHECKS.append(dict(
          'bounds respected by bound-aware algorithms; final log likelihood >= initial, == likelihood recomputed at the returned '
          'estimates (numpy closed form and a fresh BIOGEME object); reported g, H, BHHH == derivatives at that point; when '
          'convergence is reported on a well-conditioned problem the projected gradient vanishes, the value equals the reference '
-         'maximum and all converged algorithms agree; estimates written back into the formulas, fixed parameters untouched.',
+         'maximum and all converged algorithms agree; estimates written back into the formulas, fixed parameters untouched; after the '
+         'estimation (also with bootstrapping) the same object computes likelihood and simulation on the full sample. Second family: '
+         'linear regression with normal errors, sigma bounded below or unbounded (likelihood undefined for sigma <= 0, so trial '
+         'points there must be rejected): finite feasible estimates, final == recomputed >= initial, reported g/H/BHHH, write-back.',
     note='Reference maximiser: L-BFGS-B polished by projected Newton on numpy closed forms; separated data (maximum at infinity) '
          'are not judged; line-search / trust-region algorithms (documented to ignore bounds) only run without bounds; tolerance '
          '1e-7, max 500 iterations.',
@@ -228,7 +233,8 @@ CHECKS.append(dict(
          'commutative operands swapped, list / dictionary entries permuted) are built as independent object graphs. For random '
          'formulas: sorted free_beta_names, equal log likelihood, gradient entries and bounds attached to corresponding names, '
          'equal simulate rows (value dictionaries listed in shuffled order), get_value_c with a partial dictionary overriding only '
-         'the named parameters. For simulated logit problems: estimates, every column of the parameter table, pairwise '
+         'the named parameters, and the same formula object evaluated afterwards without dictionary gives the values at the '
+         'untouched initial values. For simulated logit problems: estimates, every column of the parameter table, pairwise '
          'covariances/correlations and bounds attach to the corresponding names; fixed parameters keep their value and are not '
          'reported. A parameter name reused for a column, draw variable, random variable or a free+fixed pair must be refused '
          'with BiogemeError through BIOGEME(...), get_value_c and get_value_and_derivatives.',
@@ -261,7 +267,9 @@ CHECKS.append(dict(
          'same model must start from the saved values and not below them. Then the history is re-run once per harness-visible step '
          'of every save (open/truncate, each write, close, rename) with the process stopped (os._exit) at that step: the file must '
          'be absent or complete-and-valid and a restart must succeed. All crash points of every save are enumerated (capped at 60 '
-         'per history in the quick tier).',
+         'per history in the quick tier). Same-object histories: one object estimated under one model name, renamed to a name whose '
+         'file holds a poor point and estimated again with 1-3 iterations; after every intercepted evaluation the file must hold the '
+         'best point evaluated since that estimation started.',
     note='Crash points at Python granularity inside the saving code (module-level open / os.replace wrapped from the harness, no '
          'source hook); power-loss semantics below write(2) are not modelled. Three defects found were repaired (fix: commits).',
     technique='property-based testing (Hypothesis) of evaluation histories against a best-so-far model + exhaustive fault injection at every step of every save',
@@ -272,8 +280,10 @@ CHECKS.append(dict(
     text='Fault planting: a valid random formula (C01 grammar) gets ONE fault (unknown column, draw outside MonteCarlo, integration '
          'variable outside Integrate, second derivatives without first) at a generated leaf position under any operator kind and is '
          'sent through BIOGEME(...), get_value_c and get_value_and_derivatives: it must be refused with BiogemeError naming the '
-         'element, while its un-faulted twin is accepted with the reference values. Structural faults (choice value without '
-         'utility, utility/availability key mismatch, overlapping nests, nest member outside the choice set for nested and '
+         'element, while its un-faulted twin is accepted with the reference values; through BIOGEME the formula is given alone or '
+         'inside a dictionary before / after other valid formulas. One name for two kinds of element (parameter and column, free and '
+         'fixed parameter, parameter and draw / integration variable) must be refused. Structural faults (choice value without '
+         'utility, utility/availability key mismatch, overlapping nests at any pair of positions, nest member outside the choice set for nested and '
          'cross-nested models in object and tuple syntax, non-numeric column, NaN cell, empty table, variable outside the trajectory '
          'on panel data) must be refused likewise. Missing-data code (default and declared) planted in a cell the formula '
          'certainly reads on that row must make the evaluation fail; planted in unreferenced columns or branches not taken it must '
